@@ -3,6 +3,7 @@ package props
 import (
 	"fmt"
 	"math"
+	"strings"
 
 	"verif/harness/gen"
 	"verif/harness/mon"
@@ -223,9 +224,34 @@ func genRec(r *gen.R, op string, validOnly bool) recCase {
 		for i := range acts {
 			acts[i] = pool[r.Intn(len(pool))]
 		}
+		if r.Chance(0.4) {
+			// a parameterised activation with non-default activation_alpha / activation_beta, in
+			// either spelling: honoured with these parameters or refused (every entry is the same
+			// function, so that the order in which the parameters are consumed has one reading)
+			name := r.PickStr("HardSigmoid", "LeakyRelu", "Elu")
+			alphas, betas := make([]float32, nAct), make([]float32, nAct)
+			c.at.ActAlpha = make([]float64, nAct)
+			for i := range acts {
+				acts[i] = name
+				if r.Bool() {
+					acts[i] = strings.ToLower(name)
+				}
+				alphas[i] = float32(r.PickFloat(0.5, 0.05, 0.3, 0.75))
+				c.at.ActAlpha[i] = float64(alphas[i])
+			}
+			c.req.Attrs = append(c.req.Attrs, mon.AttrFloats("activation_alpha", alphas))
+			if name == "HardSigmoid" {
+				c.at.ActBeta = make([]float64, nAct)
+				for i := range betas {
+					betas[i] = float32(r.PickFloat(0.25, 0.1, 0.6, 0.4))
+					c.at.ActBeta[i] = float64(betas[i])
+				}
+				c.req.Attrs = append(c.req.Attrs, mon.AttrFloats("activation_beta", betas))
+			}
+		}
 		c.at.Activations = acts
 		c.req.Attrs = append(c.req.Attrs, mon.AttrStrings("activations", acts))
-		mayRefuse = "activation names in ONNX spelling may be refused"
+		mayRefuse = "activation names in ONNX spelling / parameterised activations may be refused"
 		c.attrNote = "activations"
 	case 4: // unknown activation or wrong count
 		acts := make([]string, nAct)
@@ -473,14 +499,14 @@ func c06Stepwise(c *Ctx, rc recCase, Y *ref.T) {
 		if acts != nil {
 			name = acts[0]
 		}
-		f, _ = ref.Activation(name)
+		f, _ = rc.at.Act([]string{name}, 0)
 	case "GRU":
 		n1, n2 := "Sigmoid", "Tanh"
 		if acts != nil {
 			n1, n2 = acts[0], acts[1]
 		}
-		f, _ = ref.Activation(n1)
-		g, _ = ref.Activation(n2)
+		f, _ = rc.at.Act([]string{n1, n2}, 0)
+		g, _ = rc.at.Act([]string{n1, n2}, 1)
 	}
 	if f == nil {
 		return
